@@ -4,6 +4,8 @@
 -/
 import SkyllhModel.Proofs.Par
 import SkyllhModel.Proofs.ParStatus
+import SkyllhModel.Model.ParSetupR7
+import SkyllhModel.Generated.C09
 import Mathlib.Tactic
 
 open Par
@@ -467,3 +469,325 @@ theorem c09_status_interactive_hang_counterexample : ¬ c09_status_exits_stateme
 example : ParStatus.Fair (ParStatus.sched []) := ParStatus.sched_fair []
 example : (ParStatus.run { shown := true, cap := 2, tasks := 3, drainAtJoin := true }
     (ParStatus.sched ParStatus.preHang) 14).exited = true := by decide
+
+/-! ## Round 7 — `get_ncpu` / `IsParallelizable.ncpu` with the literals of the source, the set-up of
+`parallelize` (type checks, one seed per child drawn from the caller's service, one `TimeLord` per child),
+the exit-code loop after the joins (`Model/ParSetupR7.lean`) -/
+
+section Round7
+open ParSetup
+
+/-- the parametrised `get_ncpu` at the recorded literals is the model used so far -/
+theorem c09_get_ncpu_p_eq (c l : PyVal) : getNcpuP 1 1 c l = getNcpu c l := by
+  cases c <;> cases l <;> simp [getNcpuP, getNcpu]
+
+/-- whatever the two literals are, as long as the lower bound is at least 1: every worker count `get_ncpu`
+returns is at least 1 -/
+theorem c09_get_ncpu_p_ge_one (d m : Int) (hm : 1 ≤ m) (c l : PyVal) (n : Nat)
+    (h : getNcpuP d m c l = .ok n) : 1 ≤ n := by
+  unfold getNcpuP at h
+  simp only at h
+  split at h
+  · split at h
+    · simp at h
+    · simp only [Except.ok.injEq] at h; omega
+  · simp at h
+
+/-- with both settings `None` `get_ncpu` returns the default and does not raise, provided the default passes
+the bound -/
+theorem c09_get_ncpu_p_default (d m : Int) (hd : m ≤ d) :
+    getNcpuP d m .none .none = .ok d.toNat := by
+  simp [getNcpuP]; omega
+
+/-- the obligations on the literals of the current source -/
+theorem c09_get_ncpu_literals_for_current_source :
+    1 ≤ Gen.C09.minNcpuGet ∧ Gen.C09.minNcpuGet ≤ Gen.C09.defaultNcpu ∧
+    Gen.C09.minNcpuGet ≤ Gen.C09.minNcpuSet := by decide
+
+theorem c09_get_ncpu_ge_one_for_current_source (c l : PyVal) (n : Nat)
+    (h : getNcpuP Gen.C09.defaultNcpu Gen.C09.minNcpuGet c l = .ok n) : 1 ≤ n :=
+  c09_get_ncpu_p_ge_one _ _ c09_get_ncpu_literals_for_current_source.1 c l n h
+
+theorem c09_get_ncpu_default_for_current_source :
+    ∃ n, getNcpuP Gen.C09.defaultNcpu Gen.C09.minNcpuGet .none .none = .ok n ∧ 1 ≤ n :=
+  ⟨_, c09_get_ncpu_p_default _ _ c09_get_ncpu_literals_for_current_source.2.1,
+    c09_get_ncpu_p_ge_one _ _ c09_get_ncpu_literals_for_current_source.1 _ _ _
+      (c09_get_ncpu_p_default _ _ c09_get_ncpu_literals_for_current_source.2.1)⟩
+
+/-- `obj.ncpu = v` accepted with a value other than `None` ⇒ reading `obj.ncpu` returns that value, whatever
+the configuration holds, and never raises (the setter's bound is not weaker than the getter's) -/
+theorem c09_ncpu_property_set_then_get (d mg ms : Int) (hms : mg ≤ ms) (c v stored : PyVal)
+    (hset : setNcpuP ms v = .ok stored) (hv : v ≠ .none) :
+    ∃ k : Int, v = .int k ∧ ms ≤ k ∧ getNcpuP d mg c stored = .ok k.toNat := by
+  cases v with
+  | none => exact absurd rfl hv
+  | other => simp [setNcpuP] at hset
+  | int k =>
+    unfold setNcpuP at hset
+    simp only at hset
+    split at hset
+    · simp at hset
+    · simp only [Except.ok.injEq] at hset
+      subst hset
+      refine ⟨k, rfl, by omega, ?_⟩
+      have : ¬ k < mg := by omega
+      simp [getNcpuP, this]
+
+/-- every worker count the property returns is at least 1 -/
+theorem c09_ncpu_property_ge_one (d mg ms : Int) (hmg : 1 ≤ mg) (c v : PyVal) (n : Nat)
+    (h : ncpuProperty d mg ms c v = .ok n) : 1 ≤ n := by
+  unfold ncpuProperty at h
+  cases hs : setNcpuP ms v with
+  | error e => simp [hs] at h
+  | ok stored =>
+    cases hg : getNcpuP d mg c stored with
+    | error e => simp [hs, hg] at h
+    | ok n' =>
+      simp [hs, hg] at h
+      subst h
+      exact c09_get_ncpu_p_ge_one d mg hmg c stored _ hg
+
+theorem c09_ncpu_property_for_current_source (c v : PyVal) (n : Nat)
+    (h : ncpuProperty Gen.C09.defaultNcpu Gen.C09.minNcpuGet Gen.C09.minNcpuSet c v = .ok n) : 1 ≤ n :=
+  c09_ncpu_property_ge_one _ _ _ c09_get_ncpu_literals_for_current_source.1 c v n h
+
+example : ncpuProperty 1 1 1 (.int 0) (.int 3) = .ok 3 := by decide
+example : ncpuProperty 1 1 1 (.int 0) .none = .error "get:ValueError" := by decide
+example : setNcpuP 1 (.int 3) = .ok (.int 3) ∧ PyVal.int 3 ≠ .none := by decide
+
+/-! ### set-up -/
+
+/-- `ncpu == 1`: no type check, the tasks get the caller's `rss` / `tl` objects as they are -/
+theorem c09_setup_single_no_type_check (rss tl : Arg) (draw : Nat → Nat) :
+    ∃ s, setup 1 rss tl draw = .ok s ∧ s.single = true ∧ s.masterRss = rss ∧ s.masterTl = tl ∧
+      s.childSeeds = [] ∧ s.masterDraws = 0 := by
+  simp [setup]
+
+/-- more than one process: the set-up raises iff `rss` or `tl` has the wrong type -/
+theorem c09_setup_error_iff (ncpu : Int) (h : 2 ≤ ncpu) (rss tl : Arg) (draw : Nat → Nat) :
+    (∃ e, setup ncpu rss tl draw = .error e) ↔ (rss = .wrong ∨ tl = .wrong) := by
+  have h1 : ncpu ≠ 1 := by omega
+  have h2 : ¬ ncpu < 1 := by omega
+  cases rss <;> cases tl <;> simp [setup, h1, h2]
+
+/-- one seed and one `TimeLord` slot per child process of the transition system -/
+theorem c09_setup_one_seed_per_child {α β : Type} (ncpu : Int) (h : 2 ≤ ncpu) (rss tl : Arg) (draw : Nat → Nat)
+    (s : Setup) (hs : setup ncpu rss tl draw = .ok s) (f : Nat → Nat → α → β) (args : List α)
+    (fault : Nat → Option Fault) (logs : Bool) :
+    s.single = false ∧ s.childSeeds.length = (mkCfg f args ncpu.toNat fault logs).nchild ∧
+      s.childTl.length = (mkCfg f args ncpu.toNat fault logs).nchild := by
+  have h1 : ncpu ≠ 1 := by omega
+  have h2 : ¬ ncpu < 1 := by omega
+  have h3 : (ncpu - 1).toNat = ncpu.toNat - 1 := by omega
+  cases rss <;> cases tl <;> simp [setup, h1, h2] at hs <;> subst hs <;> simp [mkCfg, h3]
+
+/-- the seeds handed to the children are the first `ncpu - 1` numbers of the caller's service, in pid order,
+and the caller's service continues after them -/
+theorem c09_setup_seeds (ncpu : Int) (h : 2 ≤ ncpu) (tl : Arg) (draw : Nat → Nat) (s : Setup)
+    (hs : setup ncpu .ok tl draw = .ok s) :
+    s.childSeeds = (List.range (ncpu.toNat - 1)).map (fun i => some (draw i)) ∧
+      s.masterDraws = ncpu.toNat - 1 := by
+  have h1 : ncpu ≠ 1 := by omega
+  have h2 : ¬ ncpu < 1 := by omega
+  have h3 : (ncpu - 1).toNat = ncpu.toNat - 1 := by omega
+  cases tl <;> simp [setup, h1, h2] at hs <;> subst hs <;> simp [h3]
+
+/-- every child seed is a legal seed of `numpy.random.RandomState` (`0 … 2^32 - 1`), given the contract of
+`randint(lo, hi)` and bounds on its two literals -/
+theorem c09_setup_seeds_legal (lo hi : Int) (_hlo : 0 ≤ lo) (hhi : hi ≤ 2 ^ 32) (ncpu : Int) (rss tl : Arg)
+    (draw : Nat → Nat) (hd : ∀ i, lo ≤ (draw i : Int) ∧ (draw i : Int) < hi) (s : Setup)
+    (hs : setup ncpu rss tl draw = .ok s) : ∀ v, some v ∈ s.childSeeds → v ≤ 2 ^ 32 - 1 := by
+  intro v hv
+  have key : ∃ i, v = draw i := by
+    unfold setup at hs
+    split at hs
+    · simp only [Except.ok.injEq] at hs; subst hs; simp at hv
+    · split at hs
+      · simp at hs
+      · cases rss <;> cases tl <;> simp at hs <;> subst hs <;> simp at hv <;>
+          (obtain ⟨i, _, hi⟩ := hv; exact ⟨i, hi.symm⟩)
+  obtain ⟨i, rfl⟩ := key
+  have := hd i
+  have h32 : (2 : Int) ^ 32 = 4294967296 := by norm_num
+  have h32n : (2 : Nat) ^ 32 = 4294967296 := by norm_num
+  omega
+
+theorem c09_setup_seeds_legal_for_current_source (ncpu : Int) (rss tl : Arg) (draw : Nat → Nat)
+    (hd : ∀ i, Gen.C09.randintLow ≤ (draw i : Int) ∧ (draw i : Int) < Gen.C09.randintHigh) (s : Setup)
+    (hs : setup ncpu rss tl draw = .ok s) : ∀ v, some v ∈ s.childSeeds → v ≤ 2 ^ 32 - 1 :=
+  c09_setup_seeds_legal _ _ (by decide) (by decide) ncpu rss tl draw hd s hs
+
+/-- the seed of child `pid` does not depend on the number of processes: the seeds for `n₁` processes are a
+prefix of those for `n₂ ≥ n₁` -/
+theorem c09_setup_seed_independent_of_ncpu (n₁ n₂ : Int) (h₁ : 2 ≤ n₁) (h₂ : n₁ ≤ n₂) (rss tl : Arg)
+    (draw : Nat → Nat) (s₁ s₂ : Setup) (hs₁ : setup n₁ rss tl draw = .ok s₁)
+    (hs₂ : setup n₂ rss tl draw = .ok s₂) : s₁.childSeeds = s₂.childSeeds.take (n₁.toNat - 1) := by
+  have a1 : n₁ ≠ 1 := by omega
+  have a2 : ¬ n₁ < 1 := by omega
+  have b1 : n₂ ≠ 1 := by omega
+  have b2 : ¬ n₂ < 1 := by omega
+  have e1 : (n₁ - 1).toNat = n₁.toNat - 1 := by omega
+  have e2 : (n₂ - 1).toNat = n₂.toNat - 1 := by omega
+  have hle : n₁.toNat - 1 ≤ n₂.toNat - 1 := by omega
+  cases rss <;> cases tl <;> simp [setup, a1, a2, b1, b2] at hs₁ hs₂ <;> subst hs₁ <;> subst hs₂ <;>
+    simp [e1, e2, List.take_replicate, ← List.map_take, List.take_range, Nat.min_eq_left hle]
+
+/-- the set-up looks at the first `ncpu - 1` numbers of the caller's service only (deterministic for a given
+seed and worker count) -/
+theorem c09_setup_depends_on_used_draws (ncpu : Int) (rss tl : Arg) (d₁ d₂ : Nat → Nat)
+    (h : ∀ i : Nat, (i : Int) < ncpu - 1 → d₁ i = d₂ i) : setup ncpu rss tl d₁ = setup ncpu rss tl d₂ := by
+  unfold setup
+  split
+  · rfl
+  · split
+    · rfl
+    · cases rss <;> cases tl <;> simp
+      all_goals
+        intro i hi
+        exact h i (by omega)
+
+example : setup 3 .ok .none (fun i => 10 + i) =
+    .ok ⟨false, [some 10, some 11], 2, [false, false], .ok, .none⟩ := by decide
+example : ∃ e, setup 2 .wrong .ok (fun _ => 0) = .error e := ⟨_, rfl⟩
+
+/-- the expected list of a configuration does not depend on the fault plan or on whether log records are written -/
+theorem C09.expected_mkCfg_indep {α β : Type} (f : Nat → Nat → α → β) (args : List α) (ncpu : Nat)
+    (fault₁ fault₂ : Nat → Option Fault) (logs₁ logs₂ : Bool) (mf₁ mf₂ : Option Nat) :
+    expected (mkCfg f args ncpu fault₁ logs₁ mf₁) = expected (mkCfg f args ncpu fault₂ logs₂ mf₂) := rfl
+
+/-- **Deterministic for a given seed and worker count**: two calls with the same task function, the same arguments,
+the same number of processes and caller services that yield the same first `ncpu - 1` numbers (same seed) — under any
+two fault plans, any two completion orders, with or without log records — that both return, return the same list,
+namely `seededExpected`: the set-up hands the same seeds to the same processes, and what a process computes depends on
+its pid's service and the local task number only. -/
+theorem c09_seeded_deterministic {α β : Type} (g : Option Nat → Nat → Nat → α → β) (callerSeed : Option Nat)
+    (ncpu : Int) (rss tl : Arg) (d₁ d₂ : Nat → Nat) (hd : ∀ i : Nat, (i : Int) < ncpu - 1 → d₁ i = d₂ i)
+    (s₁ s₂ : Setup) (hs₁ : setup ncpu rss tl d₁ = .ok s₁) (hs₂ : setup ncpu rss tl d₂ = .ok s₂)
+    (args : List α) (fault₁ fault₂ : Nat → Option Fault) (logs₁ logs₂ : Bool) (mf₁ mf₂ : Option Nat)
+    (σ₁ σ₂ : Nat → Agent) (k₁ k₂ : Nat) (r₁ r₂ : List β)
+    (h₁ : (run (mkCfg (seededF g s₁ callerSeed) args ncpu.toNat fault₁ logs₁ mf₁) σ₁ k₁).m = .done r₁)
+    (h₂ : (run (mkCfg (seededF g s₂ callerSeed) args ncpu.toNat fault₂ logs₂ mf₂) σ₂ k₂).m = .done r₂) :
+    r₁ = r₂ ∧ r₁ = seededExpected g s₁ callerSeed args ncpu.toNat := by
+  have hs : s₁ = s₂ := by
+    have := c09_setup_depends_on_used_draws ncpu rss tl d₁ d₂ hd
+    rw [hs₁, hs₂] at this
+    exact Except.ok.inj this
+  subst hs
+  rw [c09_no_partial_results _ σ₁ k₁ r₁ h₁, c09_no_partial_results _ σ₂ k₂ r₂ h₂]
+  exact ⟨rfl, rfl⟩
+
+/-- entry by entry: output position `i` holds the result of input `i`, computed as local task `t` by the process
+`array_split` gives it to, with that process's service -/
+theorem c09_seeded_expected_mapIdx {α β : Type} (g : Option Nat → Nat → Nat → α → β) (s : Setup)
+    (callerSeed : Option Nat) (args : List α) (ncpu : Nat) (h : 1 ≤ ncpu) :
+    seededExpected g s callerSeed args ncpu =
+      ((arraySplit args ncpu).mapIdx (fun p c => c.mapIdx (seededF g s callerSeed p))).flatten ∧
+    (seededExpected g s callerSeed args ncpu).length = args.length :=
+  ⟨c09_expected_mapIdx _ args ncpu h _ _, c09_expected_length _ args ncpu h _ _⟩
+
+example : seededExpected (fun sd skip t (x : Nat) => (sd, skip, t, x)) ⟨false, [some 10, some 11], 2, [false, false], .ok, .none⟩
+    (some 7) [0, 1, 2, 3, 4] 3 =
+    [(some 7, 2, 0, 0), (some 7, 2, 1, 1), (some 10, 0, 0, 2), (some 10, 0, 1, 3), (some 11, 0, 0, 4)] := by decide
+
+/-! ### keyword arguments of a task -/
+
+theorem C09.lookup_cons' {V : Type} (k' a : String) (b : V) (d : List (String × V)) :
+    List.lookup k' ((a, b) :: d) = if k' = a then some b else List.lookup k' d := by
+  by_cases h : k' = a
+  · subst h; simp [List.lookup]
+  · have : (k' == a) = false := by simpa using h
+    simp [List.lookup, this, h]
+
+theorem C09.lookup_dictSet {V : Type} (d : List (String × V)) (k k' : String) (v : V) :
+    (dictSet d k v).lookup k' = if k' = k then some v else d.lookup k' := by
+  induction d with
+  | nil => simp [dictSet, C09.lookup_cons']
+  | cons kv d ih =>
+    obtain ⟨a, b⟩ := kv
+    by_cases hak : a = k
+    · subst hak
+      simp only [dictSet, if_true, C09.lookup_cons']
+      split_ifs <;> rfl
+    · simp only [dictSet, hak, if_false, C09.lookup_cons', ih]
+      split_ifs <;> simp_all
+
+/-- a task is called with the service / the `TimeLord` of its process under `rss` / `tl` whenever one is given (whatever the
+caller put there), with the caller's own value otherwise, and every other keyword argument is the caller's -/
+theorem c09_task_kwargs_lookup {V : Type} (own : List (String × V)) (rss tl : Option V) (k : String) :
+    (taskKwargs own rss tl).lookup k =
+      if k = "tl" ∧ tl.isSome then tl
+      else if k = "rss" ∧ rss.isSome then rss
+      else own.lookup k := by
+  cases rss <;> cases tl <;> simp only [taskKwargs, C09.lookup_dictSet, Option.isSome_none, Option.isSome_some,
+    and_true, and_false, if_false, Bool.false_eq_true]
+
+/-- without a service and without a `TimeLord` the task gets the caller's dictionary as it is -/
+theorem c09_task_kwargs_none {V : Type} (own : List (String × V)) : taskKwargs own none none = own := rfl
+
+example : taskKwargs [("a", 1), ("rss", 2), ("b", 3)] (some 9) (some 8) = [("a", 1), ("rss", 9), ("b", 3), ("tl", 8)] := by
+  decide
+
+/-- pid ↔ index in `processes`: `enumerate(processes, start)` and `processes[pid - off]` agree iff the two
+literals agree -/
+theorem c09_pid_index_roundtrip (start off : Int) : (∀ i : Int, 0 ≤ i → (start + i) - off = i) ↔ start = off := by
+  constructor
+  · intro h; have := h 0 (le_refl _); omega
+  · intro h i _; omega
+
+theorem c09_pid_layout_for_current_source :
+    Gen.C09.enumStart = Gen.C09.procOffset ∧ Gen.C09.childPidAbove + 1 = Gen.C09.enumStart ∧
+    Gen.C09.singleNcpu = 1 ∧ Gen.C09.singleNcpu = Gen.C09.minNcpuGet := by decide
+
+/-! ### the exit-code loop after the joins -/
+
+/-- the loop falls through iff every child ended with exit code 0 -/
+theorem c09_first_bad_exit_none_iff (cs : List Int) : firstBadExit cs = none ↔ ∀ c ∈ cs, c = 0 := by
+  induction cs with
+  | nil => simp [firstBadExit]
+  | cons c cs ih =>
+    by_cases hc : c = 0
+    · simp [firstBadExit, hc, ih]
+    · simp [firstBadExit, hc]
+
+/-- the child named in the error is the first one (in pid order) with a non-zero exit code -/
+theorem c09_first_bad_exit_least (cs : List Int) (i : Nat) (c : Int) (h : firstBadExit cs = some (i, c)) :
+    cs[i]? = some c ∧ c ≠ 0 ∧ ∀ j < i, cs[j]? = some 0 := by
+  induction cs generalizing i with
+  | nil => simp [firstBadExit] at h
+  | cons a cs ih =>
+    by_cases ha : a = 0
+    · subst ha
+      simp [firstBadExit] at h
+      obtain ⟨i', hi', rfl⟩ := h
+      obtain ⟨h1, h2, h3⟩ := ih i' hi'
+      refine ⟨by simpa using h1, h2, ?_⟩
+      intro j hj
+      cases j with
+      | zero => simp
+      | succ j => simpa using h3 j (by omega)
+    · simp [firstBadExit, ha] at h
+      obtain ⟨rfl, rfl⟩ := h
+      exact ⟨by simp, ha, by intro j hj; omega⟩
+
+example : firstBadExit [0, 0, -9, 3] = some (2, -9) := by decide
+
+/-- the join step of the transition system (`allZero`, used by `masterStep`) is the exit-code loop as coded: the
+master passes it iff `firstBadExit` of the children's exit codes, in the order of `processes`, finds nothing -/
+theorem c09_join_check_refines {α β M : Type} (cfg : Cfg α β) (s : State M β) :
+    allZero cfg s = true ↔ firstBadExit (exitCodes cfg.nchild s.ws) = none := by
+  rw [c09_first_bad_exit_none_iff]
+  unfold allZero exitCodes
+  rw [allTo_iff]
+  constructor
+  · intro h c hc
+    obtain ⟨j, hj, rfl⟩ := List.mem_map.1 hc
+    have := h j (List.mem_range.1 hj)
+    simp only [decide_eq_true_eq] at this
+    simp [this, codeOf]
+  · intro h j hj
+    have := h _ (List.mem_map.2 ⟨j, List.mem_range.2 hj, rfl⟩)
+    simp only [decide_eq_true_eq]
+    cases hp : (s.ws j).phase <;> simp [hp, codeOf] at this ⊢
+    exact_mod_cast this
+
+end Round7
